@@ -11,6 +11,9 @@ package ledger
 // its own overdraft allowance (the allowance belongs to the clause, not to the account: a second send from the same
 // account needs its own). Unforced: no allowance is ever written, so the revert is refused rather than overdrawing.
 //@ ufun monVal(key string) string
+//@ ghost genPostings ledger.Postings
+//@ ghost genScript string
+//@ ghost genCount int
 // (the bracketed key determines its two parts: amounts are digit strings and assets contain no blank)
 //@ assume forall a0 string, s0 string :: monVal(sprintf("[%s %s]", a0, s0)) == sprintf("%s %s", s0, a0)
 //@ func ledger.TxToScriptData
@@ -25,7 +28,11 @@ package ledger
 //@   loop 3 invariant sbOverdrafts == old(sbOverdrafts) && sbSources == old(sbSources) // C10
 //@   loop 5 invariant sbOverdrafts == old(sbOverdrafts) && sbSources == old(sbSources) // C10
 //@   loop 6 invariant (allowUnboundedOverdrafts ==> sbOverdrafts - old(sbOverdrafts) == sbSources - old(sbSources)) && (!allowUnboundedOverdrafts ==> sbOverdrafts == old(sbOverdrafts)) // C10
-//@   modifies map[string]string, map[string]ledger.variable, ghost sbSources, ghost sbOverdrafts
+// (ghost: the last script generated from a posting list, and the list it was generated from)
+//@   update genPostings = txData.Postings
+//@   update genScript = ret.Script.Plain
+//@   update genCount = genCount + 1
+//@   modifies map[string]string, map[string]ledger.variable, ghost sbSources, ghost sbOverdrafts, ghost genPostings, ghost genScript, ghost genCount
 //@ func (ledger.ScriptV1).ToCore
 //@   ensures ret.Plain == s.Script.Plain // C09
 //@   modifies map[string]string
@@ -33,7 +40,9 @@ package ledger
 //@   requires req != nil
 //@   ensures ret != nil && ret.Timestamp == req.Timestamp && ret.Reference == req.Reference && (req.Metadata != nil ==> ret.Metadata == req.Metadata) // C09
 //@   ensures len(req.Postings) == 0 ==> ret.Script.Plain == req.Script.Script.Plain // C09
-//@   modifies map[string]string, map[string]ledger.variable, ghost sbSources, ghost sbOverdrafts
+// C09: a request that carries postings runs the script generated from exactly those postings, whatever else it carries
+//@   ensures len(req.Postings) > 0 ==> genCount == old(genCount) + 1 && genPostings == req.Postings && ret.Script.Plain == genScript // C09
+//@   modifies map[string]string, map[string]ledger.variable, ghost sbSources, ghost sbOverdrafts, ghost genPostings, ghost genScript, ghost genCount
 
 // the hash of a chained log is a function of the previous hash (when there is one) and of this log's content and id;
 // sha256 and encoding/json are outside the verifier, so the digest is the uninterpreted hashOf
@@ -118,16 +127,26 @@ package ledger
 //@   property C13
 // writer side of the same pairing: each constructor stores, under its log type, the payload type HydrateLog reads that type back into
 // (callers keep seeing the bodies: inline)
+// C13: the date of an entry is the engine's clock reading in the form the store gives back (UTC, microseconds): the hash
+// covers the date as it is rendered, and a date carrying a client's UTC offset is rendered differently once read back
+//@ ufun storable(t time.Time) bool
+//@ assume forall x9 time.Time :: storable(lib("(time.Time).Round", lib("(time.Time).UTC", x9), ledger.DatePrecision))
+//@ func ledger.NewTransactionLog
+//@   ensures ret != nil && storable(ret.Date.Time) // C13
+//@   inline
+//@   property C13
 //@ func ledger.NewTransactionLogWithDate
 //@   ensures ret != nil && ret.Type == NewTransactionLogType && typeis(ret.Data, "ledger.NewTransactionLogPayload")
 //@   inline
 //@   property C13
 //@ func ledger.NewSetMetadataLog
 //@   ensures ret != nil && ret.Type == SetMetadataLogType && typeis(ret.Data, "ledger.SetMetadataLogPayload")
+//@   requires in Commander).SaveMeta: storable(at.Time) // C13
 //@   inline
 //@   property C13
 //@ func ledger.NewDeleteMetadataLog
 //@   ensures ret != nil && ret.Type == DeleteMetadataLogType && typeis(ret.Data, "ledger.DeleteMetadataLogPayload")
+//@   requires in Commander).DeleteMetadata: storable(at.Time) // C13
 //@   inline
 //@   property C13
 //@ func ledger.NewSetMetadataOnAccountLog
@@ -174,8 +193,16 @@ package ledger
 //@   modifies nothing
 //@   property C13
 
-// copies of volume tables (used by the store when it derives pre-commit volumes): a fresh table, the original untouched
+// copies of volume tables (used by the store when it derives pre-commit volumes from post-commit ones, C04): a fresh table
+// that shares nothing with the original -- neither the per-account tables nor the volumes in them -- so that what is
+// subtracted from the copy is not subtracted from the original as well
+//@ func (ledger.VolumesByAssets).copy
+//@   ensures ret != nil && fresh(ret) && (forall k3 string :: has(ret, k3) ==> ret[k3] != nil && fresh(ret[k3])) // C04
+//@   loop 1 invariant ret != nil && fresh(ret) && (forall k4 string :: has(ret, k4) ==> ret[k4] != nil && fresh(ret[k4]))
+//@   modifies map[string]*ledger.Volumes, ledger.Volumes.*
+//@   property C04
 //@ func (ledger.AccountsAssetsVolumes).Copy
-//@   ensures ret != nil
+//@   ensures ret != nil && fresh(ret) && (forall k7 string :: has(ret, k7) ==> ret[k7] != nil && fresh(ret[k7])) // C04
+//@   loop 1 invariant ret != nil && fresh(ret) && (forall k8 string :: has(ret, k8) ==> ret[k8] != nil && fresh(ret[k8]))
 //@   modifies map[string]ledger.VolumesByAssets, map[string]*ledger.Volumes, ledger.Volumes.*
-//@   trusted straight copy loops over two nested maps (not part of a property clause; its frame is what callers need)
+//@   property C04
